@@ -264,6 +264,7 @@ extern "C"
         block_until(ready, "join");
       }
       vc_join(final_vclock(id));
+      mark_joined(id);
     }
     return real::tab().join(th, rv);
   }
